@@ -145,6 +145,11 @@ def oracle(case, stats=None):
         if stats is not None:
             stats.evaluated(case, False, ["skipped:invalid_tree"])
         return
+    except Violation:
+        raise
+    except Exception as e:
+        # the reference accepted the tree as a valid model: cvxopt refusing to build it is a violation, not a harness error
+        raise Violation("building the op of a valid model raised %s: %s" % (type(e).__name__, e))
     labels = ["kind:" + case["kind"], "format:" + case["format"], "solver:" + case["solver"]]
     st_ref, p_ref, x_ref = ref_lp.solve_problem(lens, objective, ref_ineq, ref_eq)
     if st_ref == "other":
